@@ -138,6 +138,13 @@ def check(ctx, need):
 
     # ------------------------------------------------------------ R-C13-2
     ctx.rule('R-C13-2', 'T9 value flow', 'read hand-off: the engine receives inbound_data[..n] with n the count the read returned; n == 0 is end of stream; would-block is not an error (threaded)')
+    # (added after the second mutation sweep) the threaded loop polls: a would-block result means "nothing to do now" only on a non-blocking socket
+    if 'threaded' in need:
+        nb_ = [(c, show(c.arg(1))) for v_ in F.fns_in('threaded/mod.rs') for c in v_.calls() if c.nfn.split('<')[0].endswith('set_nonblocking')]
+        bad_ = [(c_.ln, a_) for c_, a_ in nb_ if a_ != 'True']
+        ctx.ob(bool(nb_) and not bad_, 'every stream the threaded connection factories build is switched to non-blocking mode (%d sites; not `true`: %s)' % (len(nb_), bad_), 'read|threaded|non-blocking')
+        if ctx.config == 'all':
+            ctx.floor(len(nb_), 20, 'set_nonblocking sites in the threaded connection factories')
     for nm, v, _, wfn, rfn, ffn in drivers:
         rd = [c for c in v.calls() if c.is_fn(rfn)]
         ok = len(rd) == 1 and show(rd[0].arg(1)) == 'array::as_mut_slice(inbound_data)'
